@@ -538,6 +538,7 @@ pub fn execute<F: Flav>(pool: &Pool, sc: &Scenario, mode: Fairness, prefix: &[us
 where
     F::Node: Send + Sync,
 {
+    crate::core::watchdog::beat();
     let sh = &pool.shared;
     let nt = sc.threads.len();
     let w = setup_world::<F>(sc);
